@@ -13,8 +13,7 @@
 (*           are folded over the recorded events; the first failing clause is named (hard).    *)
 (*   Model   the SAME step operators (DeriveFn .. ReturnFn) are folded over the recorded       *)
 (*           outcome sequence and the predicted events compared with the recorded ones:         *)
-(*           "conforms" (the repaired design), "conformsD2" (only with the named deviation D2   *)
-(*           enabled), or "drift" with the position of the first mismatch (soft).               *)
+(*           "conforms" or "drift" with the position of the first mismatch (soft).              *)
 EXTENDS Retry, Json, IOUtils
 
 Traces == JsonDeserialize(IOEnv.TRACE_FILE)
@@ -52,16 +51,13 @@ FirstMismatch(mes, res) ==
        ELSE IF Len(mes) # Len(res) THEN n + 1 ELSE 0
 ModelVerdict(T) ==
     LET d0 == FirstMismatch(RunModel(T.cfg, M0, T.seq, <<>>, {}), T.ev) IN
-    IF d0 = 0 THEN [v |-> "conforms", pos |-> 0]
-    ELSE IF T.cfg.route = "forward" /\ FirstMismatch(RunModel(T.cfg, M0, T.seq, <<>>, {"D2"}), T.ev) = 0
-         THEN [v |-> "conformsD2", pos |-> d0]
-         ELSE [v |-> "drift", pos |-> d0]
+    IF d0 = 0 THEN [v |-> "conforms", pos |-> 0] ELSE [v |-> "drift", pos |-> d0]
 
 \* ---------------------------------------------------------------- Rules monitor
 NextTrace == /\ tid' = tid + 1 /\ l' = 1 /\ ob' = Ob0 /\ UNCHANGED <<cfg, m, trail, evs>>
 Verdict(T, pos, clause, o) ==
     LET mv == ModelVerdict(T) IN
-    PrintT(<<"VERDICT", tid, pos, clause, IF o.eofRetry THEN "eofRetry" ELSE "-", mv.v, mv.pos>>)
+    PrintT(<<"VERDICT", tid, pos, clause, mv.v, mv.pos>>)
 
 TNext ==
     /\ tid <= Len(Traces)
